@@ -254,6 +254,9 @@ def bounded(rep):
         rep.add_bounded(f"{P}/bounded.real_isotherm_pairs/{res['name']}", res['ok'], res['detail'],
                         replay={'kind': 'c04.realpair', 'name': res['name'], 'seed': seed})
         n += 1
+    for res in R.model_pairs():
+        rep.add_bounded(f"{P}/bounded.model_isotherm_pairs/{res['name']}", res['ok'], res['detail'], replay={'kind': 'c04.modelpair', 'name': res['name']})
+        n += 1
     return n
 
 
